@@ -49,7 +49,7 @@ func TestMain(m *testing.M) {
 	os.Exit(code)
 }
 
-var formats = []string{"pe", "msi", "jar", "jar-hostile", "ps", "xap", "vsix", "appx", "apk", "macho", "deb", "cab"}
+var formats = []string{"pe", "msi", "jar", "jar-hostile", "ps", "xap", "vsix", "appx", "apk", "macho", "deb", "cab", "appmanifest", "rpm"}
 
 func dirList(dir string) string {
 	ents, _ := os.ReadDir(dir)
